@@ -108,6 +108,12 @@ def expand_data(W, data, depth=0):
             if seq is None:
                 return None
             out.extend(seq)
+        elif is_call(d) and callee_name(d[1]) == "concat" and len(d[2]) == 1 and isinstance(d[2][0], tuple) and d[2][0][0] == "agg" and d[2][0][1] == "array":
+            # [a, b].concat() is a followed by b
+            inner = expand_data(W, list(d[2][0][2]), depth + 1)
+            if inner is None:
+                return None
+            out.extend(inner)
         elif is_call(d) and d[1] in W.prog.fns and depth < 3:
             r = W.ev(d[1]).ret()
             inner = expand_data(W, [r], depth + 1)
@@ -224,6 +230,9 @@ def run(ctx):
         key = W.subst_fields(key, selft, fields)
         sig = W.subst_fields(sig, selft, fields)
         data = [W.subst_fields(d, selft, fields) for d in data]
+        # operands handed in as parameters are followed to the (single) caller
+        bound = bind_up(ctx, W, P.fns[fp], [key, sig] + data, fields)
+        key, sig, data = bound[0], bound[1], bound[2:]
         triples[fp] = (key, data, sig, bb)
     ctx.floor("verify-operands", len(triples), 2, "enforced verification events in the client")
 
@@ -425,6 +434,26 @@ def run(ctx):
     okresp = values.contains(respt, lambda s: is_call(s) and callee_name(s[1]) == "receive_response")
     ctx.check("verify-operands", "response/from-receive", okresp, "validated message is the received datagram",
               "ResponseHandler is not given the received response: " + values.fmt(respt), main.loc(nb[0]))
+
+
+def bind_up(ctx, W, fn, terms, fields, depth=0):
+    """Replace parameters (other than self) of a method that has a single caller by the caller's arguments, transitively."""
+    P = ctx.prog
+    if depth > 3:
+        return terms
+    if not any(isinstance(s, tuple) and s and s[0] == "param" and s[1] == fn.path and s[2] > 1 for t in terms for s in values.subterms(t)):
+        return terms
+    callers = P.callers(fn.path)
+    if len(callers) != 1:
+        return terms
+    cp, cbb = callers[0]
+    cev = W.ev(cp)
+    args = [W.expand(x) for x in cev.call_args(cbb)]
+    terms = [W.bind_params(t, fn.path, args) for t in terms]
+    cfn = P.fns[cp]
+    if cfn.impl_self == HANDLER:
+        terms = [W.subst_fields(t, ("param", cp, 1), fields) for t in terms]
+    return bind_up(ctx, W, cfn, terms, fields, depth + 1)
 
 
 def bind_from_callers(ctx, W, fn, a, b, fields):
